@@ -336,28 +336,32 @@ Section Tree.
     fold_left (fun R x => carry 0 (PLeaf x) R) ls R.
   Definition forest_of (ls : list T) : forest := forest_from [] ls.
 
+  Lemma forest_from_cons R x ls : forest_from R (x :: ls) = forest_from (carry 0 (PLeaf x) R) ls.
+  Proof. reflexivity. Qed.
   Lemma forest_from_rwf : forall ls R, rwf 0 R -> rwf 0 (forest_from R ls).
   Proof.
-    induction ls as [|x ls IH]; intros R H; [exact H|]. cbn. apply IH. apply carry_rwf; [exact H|exact I].
+    induction ls as [|x ls IH]; intros R H; [exact H|]. rewrite forest_from_cons.
+    apply IH. apply carry_rwf; [exact H|exact I].
   Qed.
   Lemma forest_from_leaves : forall ls R, mleaves (forest_from R ls) = mleaves R ++ ls.
   Proof.
-    induction ls as [|x ls IH]; intros R; cbn; [rewrite app_nil_r; reflexivity|].
-    rewrite IH, carry_leaves, <- app_assoc. reflexivity.
+    induction ls as [|x ls IH]; intros R; [cbn; rewrite app_nil_r; reflexivity|].
+    rewrite forest_from_cons, IH, carry_leaves, <- app_assoc. reflexivity.
   Qed.
   Lemma forest_from_rval : forall ls R, rwf 0 R ->
     rval 0 (forest_from R ls) = (rval 0 R + N.of_nat (length ls))%N.
   Proof.
-    induction ls as [|x ls IH]; intros R H; cbn [forest_from fold_left length]; [lia|].
-    fold (forest_from (carry 0 (PLeaf x) R) ls).
+    induction ls as [|x ls IH]; intros R H; [cbn [forest_from fold_left length]; lia|].
+    rewrite forest_from_cons.
     rewrite IH by (apply carry_rwf; [exact H|exact I]).
-    rewrite carry_rval by (exact H || exact I). lia.
+    rewrite carry_rval by (exact H || exact I). cbn [length]. lia.
   Qed.
   Lemma forest_from_post : forall ls R, exists more, mpost (forest_from R ls) = mpost R ++ more.
   Proof.
-    induction ls as [|x ls IH]; intros R; cbn.
+    induction ls as [|x ls IH]; intros R.
     - exists []. rewrite app_nil_r. reflexivity.
-    - destruct (IH (carry 0 (PLeaf x) R)) as [more Hm]. rewrite carry_post in Hm.
+    - rewrite forest_from_cons.
+      destruct (IH (carry 0 (PLeaf x) R)) as [more Hm]. rewrite carry_post in Hm.
       eexists. rewrite Hm, <- app_assoc. reflexivity.
   Qed.
   Lemma forest_from_app R l1 l2 : forest_from R (l1 ++ l2) = forest_from (forest_from R l1) l2.
@@ -375,7 +379,7 @@ Section Tree.
       cbn [append_all]. rewrite Ha.
       destruct (IH t1 (carry 0 (PLeaf x) R) Hinv1) as (t' & Hb' & Hinv' & Hn').
       + destruct Hinv as (HR & _). rewrite carry_rval by (exact HR || exact I). lia.
-      + exists t'. cbn [forest_from fold_left]. auto.
+      + exists t'. rewrite forest_from_cons. auto.
   Qed.
 
   Lemma empty_tree_inv : tree_inv (empty_tree_mem T) [].
@@ -417,5 +421,428 @@ Section Tree.
     - rewrite (tree_inv_root t _ Hinv). unfold forest_of. rewrite forest_from_leaves. reflexivity.
     - destruct Hinv as (_ & Hs & _). rewrite Hs. unfold forest_of. rewrite forest_from_rval by exact I.
       cbn. reflexivity.
+  Qed.
+
+  (** * Store positions: getSubTreeSize / getSubTreePos *)
+  Definition szN (ht : nat * ptree) : N := (2 ^ N.of_nat (S (fst ht)) - 1)%N.
+
+  Lemma pow2N_pos x : (0 < 2 ^ x)%N.
+  Proof. apply N.neq_0_lt_0. apply N.pow_nonzero. discriminate. Qed.
+
+  Lemma rval_zero R j : rval j R = 0%N -> R = [].
+  Proof.
+    destruct R as [|[h t] R]; [reflexivity|]. cbn [rval].
+    pose proof (pow2N_pos (N.of_nat (h - j))). lia.
+  Qed.
+
+  Lemma sub32_small x y : (y <= x)%N -> (x < two32N)%N -> sub32 x y = (x - y)%N.
+  Proof. unfold sub32, w32m, two32N. intros. lia. Qed.
+
+  Lemma pow2N_le a b : a <= b -> (2 ^ N.of_nat a <= 2 ^ N.of_nat b)%N.
+  Proof. intro H. apply N.pow_le_mono_r; lia. Qed.
+
+  Lemma sizes_loop_forest : forall f R j acc, rwf j R -> N.size_nat (rval j R) = f -> j + f <= 31 ->
+    sizes_loop f (rval j R) (2 ^ N.of_nat j) acc = rev (map szN R) ++ acc.
+  Proof.
+    induction f as [|f IH]; intros R j acc HR Hf Hb.
+    - apply size_nat_0 in Hf. apply rval_zero in Hf. subst R. reflexivity.
+    - pose proof (size_nat_S _ _ Hf) as [Hnz Hf'].
+      cbn [sizes_loop].
+      assert (Hid : w32m (2 ^ N.of_nat j * 2) = (2 ^ N.of_nat (S j))%N).
+      { rewrite Nat2N.inj_succ, N.pow_succ_r', N.mul_comm. apply w32m_small.
+        pose proof (pow2N_le (S j) 31 ltac:(lia)) as Hle.
+        rewrite Nat2N.inj_succ, N.pow_succ_r' in Hle. change (2 ^ N.of_nat 31)%N with 2147483648%N in Hle.
+        unfold two32N. lia. }
+      rewrite Hid.
+      destruct R as [|[h t] R]; [cbn in Hnz; congruence|].
+      destruct HR as (Hh & Hp & HR).
+      destruct (Nat.eq_dec h j) as [->|Hne].
+      + cbn [rval] in *. rewrite Nat.sub_diag in *. change (2 ^ N.of_nat 0)%N with 1%N in *.
+        rewrite (rval_shift R j HR) in *.
+        rewrite Nodd_double_succ. rewrite Ndiv2_double_succ in *.
+        rewrite (IH R (S j)) by (assumption || lia).
+        cbn [map rev]. rewrite <- app_assoc. cbn [app]. f_equal. f_equal.
+        unfold szN. cbn [fst]. apply sub32_small.
+        * pose proof (pow2N_pos (N.of_nat (S j))). lia.
+        * pose proof (pow2N_le (S j) 31 ltac:(lia)) as Hle.
+          change (2 ^ N.of_nat 31)%N with 2147483648%N in Hle. unfold two32N. lia.
+      + assert (Hr : rwf (S j) ((h, t) :: R)) by (simpl; repeat split; auto; lia).
+        rewrite (rval_shift _ j Hr) in *.
+        rewrite Nodd_double. rewrite Ndiv2_double in *.
+        apply (IH _ (S j)); assumption || lia.
+  Qed.
+
+  Lemma size_nat_lower : forall f n, N.size_nat n = S f -> (2 ^ N.of_nat f <= n)%N.
+  Proof.
+    induction f as [|f IH]; intros n H.
+    - destruct n; [discriminate|]. simpl. lia.
+    - apply size_nat_S in H. destruct H as [H0 H1]. apply IH in H1.
+      rewrite Nat2N.inj_succ, N.pow_succ_r'. rewrite N.div2_div in H1. lia.
+  Qed.
+
+  Lemma size_nat_le31 n : (n < 2147483648)%N -> N.size_nat n <= 31.
+  Proof.
+    intro H. destruct (N.size_nat n) as [|f] eqn:E; [lia|].
+    apply size_nat_lower in E.
+    destruct (le_lt_dec (S f) 31) as [|Hgt]; [assumption|].
+    pose proof (pow2N_le 31 f ltac:(lia)) as Hle.
+    change (2 ^ N.of_nat 31)%N with 2147483648%N in Hle. lia.
+  Qed.
+
+  Lemma get_sub_tree_size_forest R : rwf 0 R -> (rval 0 R < 2147483648)%N ->
+    get_sub_tree_size (rval 0 R) = map szN (rev R).
+  Proof.
+    intros HR Hb. unfold get_sub_tree_size.
+    change 1%N with (2 ^ N.of_nat 0)%N.
+    rewrite (sizes_loop_forest _ R 0 [] HR eq_refl) by (pose proof (size_nat_le31 _ Hb); lia).
+    rewrite app_nil_r, map_rev. reflexivity.
+  Qed.
+
+  (** ideal running sums *)
+  Fixpoint psums (a : N) (l : list N) : list N :=
+    match l with [] => [] | x :: r => (a + x)%N :: psums (a + x)%N r end.
+  Definition sumN (l : list N) : N := fold_right N.add 0%N l.
+
+  Lemma prefix_sums_nowrap : forall l a, (a + sumN l < two32N)%N -> prefix_sums a l = psums a l.
+  Proof.
+    induction l as [|x l IH]; intros a H; [reflexivity|].
+    cbn [sumN fold_right] in H. fold (sumN l) in H.
+    cbn [prefix_sums psums]. rewrite w32m_small by lia.
+    f_equal. apply IH. lia.
+  Qed.
+
+  Lemma szN_post h t : perfect h t -> szN (h, t) = N.of_nat (length (ppost t)).
+  Proof.
+    intro Hp. rewrite (perfect_post_len _ _ Hp). unfold szN. cbn [fst].
+    pose proof (pow2_pos (S h)).
+    rewrite Nat2N.inj_sub, Nat2N.inj_pow. reflexivity.
+  Qed.
+
+  Lemma sumN_post : forall F b, fwf b F -> sumN (map szN F) = N.of_nat (length (fpost F)).
+  Proof.
+    induction F as [|[h t] F IH]; intros b H; [reflexivity|].
+    destruct H as (_ & Hp & HF).
+    cbn [map sumN fold_right fpost flat_map snd]. fold (sumN (map szN F)). fold (fpost F).
+    rewrite (IH _ HF), (szN_post _ _ Hp), app_length. lia.
+  Qed.
+
+  (** reading the roots of a forest laid out in the store at [pre0 ++ done] *)
+  Lemma read_all_forest : forall F b s pre0 done post,
+    fwf b F -> hs_data T s = pre0 ++ done ++ fpost F ++ post ->
+    (N.of_nat (length pre0 + length done + length (fpost F)) < two32N)%N ->
+    read_all T s (N.of_nat (length pre0)) (psums (N.of_nat (length done)) (map szN F)) = Some (froots F).
+  Proof.
+    induction F as [|[h t] F IH]; intros b s pre0 done post HF Hd Hb; [reflexivity|].
+    destruct HF as (_ & Hp & HF).
+    cbn [map psums read_all froots snd]. fold (froots F).
+    cbn [fpost flat_map snd] in Hd, Hb. fold (fpost F) in Hd, Hb.
+    rewrite app_length in Hb.
+    rewrite (szN_post _ _ Hp).
+    destruct (ppost_last t) as [pt Hpt].
+    assert (Hlen : length (ppost t) = S (length pt)) by (rewrite Hpt, app_length; simpl; lia).
+    assert (Hget : hs_get T s (sub32 (w32m (N.of_nat (length done) + N.of_nat (length (ppost t)) + N.of_nat (length pre0))) 1)
+                   = Some (proot t)).
+    { rewrite w32m_small by lia. rewrite sub32_small by lia.
+      unfold hs_get. rewrite Hd, Hpt.
+      replace (N.to_nat (N.of_nat (length done) + N.of_nat (length (pt ++ [proot t])) + N.of_nat (length pre0) - 1))
+        with (length (pre0 ++ done ++ pt)) by (rewrite !app_length; simpl; lia).
+      replace (pre0 ++ done ++ ((pt ++ [proot t]) ++ fpost F) ++ post)
+        with ((pre0 ++ done ++ pt) ++ proot t :: fpost F ++ post) by (rewrite <- !app_assoc; reflexivity).
+      rewrite nth_error_app2 by lia. rewrite Nat.sub_diag. reflexivity. }
+    rewrite Hget.
+    replace (N.of_nat (length done) + N.of_nat (length (ppost t)))%N
+      with (N.of_nat (length (done ++ ppost t))) by (rewrite app_length; lia).
+    rewrite (IH _ s pre0 (done ++ ppost t) post HF).
+    - reflexivity.
+    - rewrite Hd, <- !app_assoc. reflexivity.
+    - rewrite app_length. lia.
+  Qed.
+
+  (** * From the largest-first view back to the smallest-first one *)
+  Lemma rwf_snoc : forall X lo h t, rwf lo X -> (forall h' t', In (h', t') X -> h' < h) -> lo <= h ->
+    perfect h t -> rwf lo (X ++ [(h, t)]).
+  Proof.
+    induction X as [|[h0 t0] X IH]; intros lo h t HX Hall Hlo Hp.
+    - simpl. auto.
+    - destruct HX as (H0 & Hp0 & HX). cbn [app rwf]. repeat split; auto.
+      assert (h0 < h) by (apply (Hall h0 t0); left; reflexivity).
+      apply IH; auto; try lia.
+      intros h' t' Hin. apply (Hall h' t'). right. exact Hin.
+  Qed.
+
+  Lemma fwf_lt : forall F b h t, fwf b F -> In (h, t) F -> h < b.
+  Proof.
+    induction F as [|[h0 t0] F IH]; intros b h t H Hin; [destruct Hin|].
+    destruct H as (H0 & _ & HF). destruct Hin as [E|Hin].
+    - inversion E; subst. exact H0.
+    - pose proof (IH _ _ _ HF Hin). lia.
+  Qed.
+
+  Lemma fwf_rev : forall F b, fwf b F -> rwf 0 (rev F).
+  Proof.
+    induction F as [|[h t] F IH]; intros b H; [simpl; auto|].
+    destruct H as (H0 & Hp & HF). cbn [rev].
+    apply rwf_snoc; [apply (IH _ HF) | | lia | exact Hp].
+    intros h' t' Hin. apply in_rev in Hin. apply (fwf_lt _ _ _ _ HF Hin).
+  Qed.
+
+  Lemma fwf_rval F b : fwf b F -> rval 0 (rev F) = N.of_nat (length (fleaves F)).
+  Proof.
+    intro H. pose proof (rval_leaves (rev F) 0 (fwf_rev _ _ H)) as E.
+    rewrite mleaves_rev, rev_involutive in E. simpl N.of_nat in E. rewrite N.pow_0_r, N.mul_1_r in E. exact E.
+  Qed.
+
+  Lemma post_le_leaves : forall F b, fwf b F -> length (fpost F) <= 2 * length (fleaves F).
+  Proof.
+    induction F as [|[h t] F IH]; intros b H; [simpl; lia|].
+    destruct H as (_ & Hp & HF).
+    cbn [fpost fleaves flat_map snd]. fold (fpost F). fold (fleaves F).
+    rewrite !app_length, (perfect_post_len _ _ Hp), (perfect_leaves_len _ _ Hp).
+    pose proof (IH _ HF). rewrite Nat.pow_succ_r'. lia.
+  Qed.
+
+  Lemma get_sub_tree_pos_fwf F b : fwf b F -> (N.of_nat (length (fleaves F)) < 2147483648)%N ->
+    get_sub_tree_pos (N.of_nat (length (fleaves F))) = psums 0 (map szN F).
+  Proof.
+    intros H Hb. unfold get_sub_tree_pos.
+    rewrite <- (fwf_rval F b H).
+    rewrite get_sub_tree_size_forest by (try apply (fwf_rev _ _ H); rewrite (fwf_rval F b H); exact Hb).
+    rewrite rev_involutive.
+    apply prefix_sums_nowrap. rewrite (sumN_post _ _ H).
+    pose proof (post_le_leaves _ _ H). unfold two32N. lia.
+  Qed.
+
+  (** subhashes + _hash_fold over a forest laid out at [pre] = the RFC hash of its leaves *)
+  Lemma fold_at_fwf F b s pre post : fwf b F -> F <> [] ->
+    hs_data T s = pre ++ fpost F ++ post ->
+    (N.of_nat (length pre + length (fpost F)) < two32N)%N ->
+    (N.of_nat (length (fleaves F)) < 2147483648)%N ->
+    fold_at T hc s (N.of_nat (length pre)) (get_sub_tree_pos (N.of_nat (length (fleaves F)))) = inr (mth (fleaves F)).
+  Proof.
+    intros H Hne Hd Hb Hn. unfold fold_at.
+    rewrite (get_sub_tree_pos_fwf F b H Hn).
+    pose proof (read_all_forest F b s pre [] post H Hd) as Hr.
+    cbn [length] in Hr. change (N.of_nat 0) with 0%N in Hr. rewrite Hr by lia.
+    destruct F as [|[h t] F]; [congruence|].
+    cbn [froots map snd hash_fold]. fold (froots F).
+    rewrite (fold_roots_mth F b h t H). reflexivity.
+  Qed.
+
+  (** * One step of the RFC-6962 split on a forest *)
+  Definition fmeasure (G : forest) : nat :=
+    match G with [] => 0 | [(h, _)] => h | (h, _) :: _ => S h end.
+
+  Lemma forest_split G b : fwf b G -> 2 <= length (fleaves G) ->
+    exists hl tl Gr tail,
+      perfect hl tl /\ fwf (S hl) Gr /\ Gr <> [] /\
+      fleaves G = pleaves tl ++ fleaves Gr /\ length (fleaves Gr) <= 2 ^ hl /\
+      fpost G = ppost tl ++ fpost Gr ++ tail /\
+      hl < fmeasure G /\ fmeasure Gr < fmeasure G.
+  Proof.
+    intros H Hn. destruct G as [|[h t] G']; [simpl in Hn; lia|].
+    destruct H as (Hb & Hp & HG').
+    destruct G' as [|[h2 t2] G''].
+    - (* a single perfect tree with at least two leaves *)
+      cbn [fleaves flat_map snd] in Hn. rewrite app_nil_r in Hn.
+      destruct h as [|h']; destruct t as [x|l r]; cbn in Hp; try tauto.
+      { simpl in Hn. lia. }
+      destruct Hp as [Hl Hr].
+      exists h', l, [(h', r)], [hc (proot l) (proot r)].
+      repeat split; auto; try congruence.
+      + cbn. rewrite !app_nil_r. reflexivity.
+      + cbn. rewrite app_nil_r, (perfect_leaves_len _ _ Hr). lia.
+      + cbn. rewrite !app_nil_r. reflexivity.
+    - exists h, t, ((h2, t2) :: G''), [].
+      pose proof (fwf_leaves_lt _ _ HG').
+      split; [exact Hp|].
+      split; [eapply fwf_weaken; [|exact HG']; lia|].
+      split; [congruence|].
+      split; [reflexivity|].
+      split; [lia|].
+      split; [cbn [fpost flat_map snd]; rewrite app_nil_r; reflexivity|].
+      split; [cbn; lia|].
+      destruct HG' as (Hh2 & _). cbn [fmeasure]. destruct G''; lia.
+  Qed.
+
+  Lemma split32_spec K hl n' : K = 2 ^ hl -> 0 < n' -> n' <= K -> (N.of_nat (K + n') < two32N)%N ->
+    split32 (N.of_nat (K + n')) = N.of_nat K.
+  Proof.
+    intros HK H0 H1 Hb. unfold split32, highBit.
+    rewrite sub32_small by (unfold two32N in *; lia).
+    set (x := (N.of_nat (K + n') - 1)%N).
+    assert (HKN : N.of_nat K = (2 ^ N.of_nat hl)%N) by (rewrite HK, Nat2N.inj_pow; reflexivity).
+    assert (Hx0 : x <> 0%N) by (pose proof (pow2_pos hl); subst x; lia).
+    rewrite (N.size_log2 x Hx0).
+    assert (Hlog : N.log2 x = N.of_nat hl).
+    { apply N.log2_unique; [lia|]. rewrite N.pow_succ_r', <- HKN. subst x. lia. }
+    rewrite Hlog.
+    destruct (N.eqb_spec (N.succ (N.of_nat hl)) 0); [lia|].
+    replace (N.succ (N.of_nat hl) - 1)%N with (N.of_nat hl) by lia.
+    symmetry. exact HKN.
+  Qed.
+
+  (** * InclusionProof reads the RFC-6962 audit path out of the store *)
+  Lemma incl_loop_S f s offset m n acc :
+    incl_loop T hc (S f) s offset m n acc =
+      if (n =? 1)%N then inr acc else
+      let k := split32 n in
+      if (m <? k)%N then
+        match fold_at T hc s (w32m (offset + k * 2 + two32N - 1)) (get_sub_tree_pos (sub32 n k)) with
+        | inl e => inl e
+        | inr rootk2n => incl_loop T hc f s offset m k (rootk2n :: acc)
+        end
+      else
+        let offset' := w32m (offset + k * 2 + two32N - 1) in
+        match hs_get T s (sub32 offset' 1) with
+        | None => inl GStoreRead
+        | Some root02k => incl_loop T hc f s offset' (sub32 m k) (sub32 n k) (root02k :: acc)
+        end.
+  Proof. reflexivity. Qed.
+
+  Lemma incl_loop_one f s offset m acc : incl_loop T hc f s offset m 1 acc = inr acc.
+  Proof. destruct f; reflexivity. Qed.
+
+  Lemma incl_loop_forest : forall f G b s pre post m acc,
+    fwf b G -> G <> [] -> hs_data T s = pre ++ fpost G ++ post ->
+    (N.of_nat (length pre + length (fpost G)) < two32N)%N ->
+    (N.of_nat (length (fleaves G)) < 2147483648)%N ->
+    m < length (fleaves G) -> fmeasure G <= f ->
+    incl_loop T hc f s (N.of_nat (length pre)) (N.of_nat m) (N.of_nat (length (fleaves G))) acc
+      = inr (rfc_path T hc hempty m (fleaves G) ++ acc).
+  Proof.
+    induction f as [|f IH]; intros G b s pre post m acc HG Hne Hd Hb Hn Hm Hf;
+      (destruct (le_lt_dec (length (fleaves G)) 1) as [H1|H2];
+       [ replace (length (fleaves G)) with 1 by lia;
+         rewrite (rfc_path_small T hc hempty m (fleaves G) H1); apply incl_loop_one | ]).
+    - destruct (forest_split G b HG H2) as (hl & tl & Gr & tail & _ & _ & _ & _ & _ & _ & Hlt & _). lia.
+    - destruct (forest_split G b HG H2) as (hl & tl & Gr & tail & Hp & HGr & HGrne & Hlv & Hle & Hpost & Hm1 & Hm2).
+      pose proof (perfect_leaves_len _ _ Hp) as HlenL.
+      pose proof (perfect_post_len _ _ Hp) as HlenP. rewrite Nat.pow_succ_r' in HlenP.
+      remember (2 ^ hl) as K eqn:HK.
+      assert (HK1 : 1 <= K) by (rewrite HK; apply pow2_pos).
+      assert (Hn' : 0 < length (fleaves Gr)).
+      { destruct Gr as [|[h0 t0] Gr0]; [congruence|].
+        pose proof (fleaves_nonempty h0 t0 Gr0). destruct (fleaves ((h0, t0) :: Gr0)); simpl; [congruence|lia]. }
+      rewrite Hpost in Hd, Hb. rewrite !app_length in Hb.
+      rewrite Hlv in *. rewrite app_length, HlenL in *.
+      rewrite incl_loop_S.
+      destruct (N.eqb_spec (N.of_nat (K + length (fleaves Gr))) 1) as [E|_]; [lia|].
+      cbv zeta.
+      rewrite (split32_spec K hl (length (fleaves Gr)) HK Hn' Hle) by (unfold two32N; lia).
+      rewrite Nltb_of_nat.
+      assert (Hbase : w32m (N.of_nat (length pre) + N.of_nat K * 2 + two32N - 1) = N.of_nat (length (pre ++ ppost tl))).
+      { rewrite app_length. unfold w32m, two32N in *. lia. }
+      assert (Hsub : sub32 (N.of_nat (K + length (fleaves Gr))) (N.of_nat K) = N.of_nat (length (fleaves Gr))).
+      { rewrite sub32_small by (unfold two32N; lia). lia. }
+      rewrite Hbase, Hsub.
+      assert (Hd2 : hs_data T s = (pre ++ ppost tl) ++ fpost Gr ++ (tail ++ post)).
+      { rewrite Hd, <- !app_assoc. reflexivity. }
+      destruct (Nat.ltb_spec m K) as [Hl|Hr].
+      + rewrite (fold_at_fwf Gr (S hl) s (pre ++ ppost tl) (tail ++ post) HGr HGrne Hd2)
+          by (rewrite ?app_length; unfold two32N in *; lia).
+        assert (HdL : hs_data T s = pre ++ fpost [(hl, tl)] ++ (fpost Gr ++ tail ++ post)).
+        { rewrite Hd. cbn [fpost flat_map snd]. rewrite app_nil_r, <- !app_assoc. reflexivity. }
+        assert (HlvL : length (fleaves [(hl, tl)]) = K).
+        { cbn [fleaves flat_map snd]. rewrite app_nil_r. exact HlenL. }
+        rewrite <- HlvL.
+        rewrite (IH [(hl, tl)] (S hl) s pre _ m _ ltac:(simpl; auto) ltac:(congruence) HdL).
+        * rewrite (rfc_path_app T hc hempty hl) by (try rewrite <- HK; assumption || lia || (destruct (fleaves Gr); simpl in *; [lia|congruence])).
+          rewrite <- HK. destruct (Nat.ltb_spec m K); [|lia].
+          cbn [fleaves flat_map snd]. rewrite app_nil_r, <- app_assoc. reflexivity.
+        * cbn [fpost flat_map snd]. rewrite app_nil_r. unfold two32N in *. lia.
+        * rewrite HlvL. lia.
+        * rewrite HlvL. lia.
+        * cbn [fmeasure]. lia.
+      + destruct (ppost_last tl) as [pt Hpt].
+        assert (Hget : hs_get T s (sub32 (N.of_nat (length (pre ++ ppost tl))) 1) = Some (proot tl)).
+        { rewrite sub32_small by (rewrite app_length; unfold two32N in *; lia).
+          unfold hs_get. rewrite Hd, Hpt.
+          replace (N.to_nat (N.of_nat (length (pre ++ pt ++ [proot tl])) - 1)) with (length (pre ++ pt))
+            by (rewrite !app_length; simpl; lia).
+          rewrite <- !app_assoc. rewrite (app_assoc pre pt).
+          rewrite nth_error_app2 by lia. rewrite Nat.sub_diag. reflexivity. }
+        rewrite Hget.
+        assert (Hsubm : sub32 (N.of_nat m) (N.of_nat K) = N.of_nat (m - K)).
+        { rewrite sub32_small by (unfold two32N; lia). lia. }
+        rewrite Hsubm.
+        rewrite (IH Gr (S hl) s (pre ++ ppost tl) (tail ++ post) (m - K) _ HGr HGrne Hd2)
+          by (rewrite ?app_length; unfold two32N in *; lia).
+        rewrite (rfc_path_app T hc hempty hl) by (try rewrite <- HK; assumption || lia || (destruct (fleaves Gr); simpl in *; [lia|congruence])).
+        rewrite <- HK. destruct (Nat.ltb_spec m K); [lia|].
+        rewrite (perfect_mth _ _ Hp), <- app_assoc. reflexivity.
+  Qed.
+
+  (** the forest of a prefix, and where it sits in the store of the longer tree *)
+  Lemma forest_of_rwf ls : rwf 0 (forest_of ls).
+  Proof. apply forest_from_rwf. exact I. Qed.
+  Lemma forest_of_leaves ls : mleaves (forest_of ls) = ls.
+  Proof. unfold forest_of. rewrite forest_from_leaves. reflexivity. Qed.
+  Lemma forest_of_rval ls : rval 0 (forest_of ls) = N.of_nat (length ls).
+  Proof. unfold forest_of. rewrite forest_from_rval by exact I. reflexivity. Qed.
+  Lemma forest_of_prefix ls k : exists more, mpost (forest_of ls) = mpost (forest_of (firstn k ls)) ++ more.
+  Proof.
+    assert (E : forest_of ls = forest_from (forest_of (firstn k ls)) (skipn k ls)).
+    { unfold forest_of. rewrite <- forest_from_app, firstn_skipn. reflexivity. }
+    rewrite E. apply forest_from_post.
+  Qed.
+
+  Definition fview (ls : list T) : forest := rev (forest_of ls).
+  Lemma fview_fwf ls : fwf (S (hmax (forest_of ls))) (fview ls).
+  Proof. apply (rwf_rev _ 0); [apply forest_of_rwf | apply hmax_ge]. Qed.
+  Lemma fview_leaves ls : fleaves (fview ls) = ls.
+  Proof. unfold fview. rewrite <- mleaves_rev. apply forest_of_leaves. Qed.
+  Lemma fview_post ls : fpost (fview ls) = mpost (forest_of ls).
+  Proof. reflexivity. Qed.
+  Lemma fview_nonempty ls : ls <> [] -> fview ls <> [].
+  Proof. intros H E. apply H. rewrite <- (fview_leaves ls), E. reflexivity. Qed.
+
+  Lemma fmeasure_fuel G b : fwf b G -> G <> [] ->
+    fmeasure G <= N.size_nat (N.of_nat (length (fleaves G) - 1)).
+  Proof.
+    intros HG Hne.
+    pose proof (size_nat_bound _ (length (fleaves G) - 1) eq_refl) as Hb.
+    set (f := N.size_nat (N.of_nat (length (fleaves G) - 1))) in *.
+    destruct G as [|[h t] G']; [congruence|]. destruct HG as (_ & Hp & HG').
+    cbn [fleaves flat_map snd] in Hb. fold (fleaves G') in Hb.
+    rewrite app_length, (perfect_leaves_len _ _ Hp) in Hb.
+    assert (Hhf : h <= f).
+    { destruct (le_lt_dec h f); [assumption|].
+      pose proof (Nat.pow_le_mono_r 2 (S f) h ltac:(lia) ltac:(lia)) as Hp2.
+      rewrite Nat.pow_succ_r' in Hp2. pose proof (pow2_pos f). lia. }
+    destruct G' as [|[h2 t2] G'']; cbn [fmeasure]; [exact Hhf|].
+    destruct (Nat.eq_dec h f) as [Ehf|]; [|lia].
+    pose proof (fleaves_nonempty h2 t2 G'') as Hn2.
+    destruct (fleaves ((h2, t2) :: G'')); [congruence|]. cbn [length] in Hb. rewrite Ehf in Hb. lia.
+  Qed.
+
+  (** the tree built from [ls] (or any tree in the same state, e.g. a reloaded one) *)
+  Definition tree_of (t : ctree T) (ls : list T) : Prop := tree_inv t (forest_of ls).
+
+  Theorem inclusion_proof_rfc t ls m k : tree_of t ls -> ct_store T t <> None ->
+    (N.of_nat (length ls) < 2147483648)%N -> m < k -> k <= length ls ->
+    inclusion_proof T hc t (N.of_nat m) (N.of_nat k) = inr (rfc_path T hc hempty m (firstn k ls)).
+  Proof.
+    intros (HR & Hs & Hh & Hst) Hsome Hb Hm Hk.
+    unfold inclusion_proof. rewrite Hs, forest_of_rval.
+    destruct (N.leb_spec (N.of_nat k) (N.of_nat m)); [lia|].
+    destruct (N.ltb_spec (N.of_nat (length ls)) (N.of_nat k)); [lia|].
+    destruct (ct_store T t) as [s|]; [|congruence].
+    destruct Hst as [Hc Hf].
+    destruct (forest_of_prefix ls k) as [more Hmore].
+    set (lk := firstn k ls) in *.
+    assert (Hlk : length lk = k) by (subst lk; rewrite firstn_length; lia).
+    assert (Hd : hs_data T s = [] ++ fpost (fview lk) ++ (more ++ skipn (hs_cur T s) (hs_data T s))).
+    { rewrite <- (firstn_skipn (hs_cur T s) (hs_data T s)) at 1. rewrite Hf, Hmore, fview_post, <- app_assoc. reflexivity. }
+    assert (Hne : fview lk <> []) by (apply fview_nonempty; destruct lk; simpl in *; [lia|congruence]).
+    pose proof (fview_fwf lk) as HF.
+    pose proof (post_le_leaves _ _ HF) as Hpl. rewrite fview_leaves, Hlk in Hpl.
+    pose proof (incl_loop_forest (N.size_nat (N.of_nat k - 1)) (fview lk) _ s [] _ m [] HF Hne Hd) as HL.
+    rewrite fview_leaves, Hlk in HL. cbn [length] in HL. change (N.of_nat 0) with 0%N in HL.
+    rewrite app_nil_r in HL. apply HL.
+    - unfold two32N. lia.
+    - lia.
+    - lia.
+    - pose proof (fmeasure_fuel _ _ HF Hne) as Hfu. rewrite fview_leaves, Hlk in Hfu.
+      replace (N.of_nat k - 1)%N with (N.of_nat (k - 1)) by lia. exact Hfu.
   Qed.
 End Tree.
